@@ -13,6 +13,7 @@ import (
 
 	"github.com/oasisprotocol/curve25519-voi/primitives/ed25519"
 	"github.com/oasisprotocol/curve25519-voi/primitives/ed25519/extra/ecvrf"
+	"github.com/oasisprotocol/curve25519-voi/zzverif/entropy"
 	"github.com/oasisprotocol/curve25519-voi/zzverif/gen"
 	"github.com/oasisprotocol/curve25519-voi/zzverif/mon"
 	"github.com/oasisprotocol/curve25519-voi/zzverif/ref"
@@ -272,7 +273,16 @@ func badKeys(r *mon.Run, c Case) {
 	}
 }
 
+// entropyCase: the entropy-consuming APIs of this property behind differently behaving readers (package entropy).
+func entropyCase(r *mon.Run, c Case) {
+	entropy.Check(r, "C15", r.Rng(fmt.Sprintf("c15/entropy/%d", c.Idx)), func(sig, what string) { r.Violate(sig, what, c) })
+}
+
 func runCase(r *mon.Run, c Case) {
+	if c.Kind == "entropy" {
+		entropyCase(r, c)
+		return
+	}
 	switch c.Kind {
 	case "honest":
 		honest(r, c)
@@ -321,6 +331,9 @@ func main() {
 		if r.HistGet(b) == 0 {
 			r.Inconclusive("workload never reached " + b)
 		}
+	}
+	for i := 0; i < r.Pick(6, 60); i++ {
+		entropyCase(r, Case{Kind: "entropy", Idx: i})
 	}
 	r.Finish()
 }
